@@ -140,6 +140,9 @@ func newPackage(program *loader.Program, pkgInfo *loader.PackageInfo, plugins []
 				for _, plugin := range plugins {
 					if strings.HasPrefix(call.Name, plugin.GetPrefix()) {
 						pkg.undefined = append(pkg.undefined, call.Expr)
+						// The name is taken by the user, even though the types of the call are only known in a later pass,
+						// so it is not available as the name of a function that is generated as a dependency.
+						reserved[call.Name] = struct{}{}
 						break
 					}
 				}
